@@ -1215,4 +1215,178 @@ Proof.
       apply Rep_set_st; [exact R1|exact Hon1|cbn; lia].
 Qed.
 
+
+(* ------------------------------------------------------------------------------------------ *)
+(* poll_inner                                                                                   *)
+
+Lemma dispatch_wp f now (w : W) : Rep n f -> time_ok now -> w_tx w = None -> Winv w ->
+  f_conn f = ConnOnline -> kind_of (f_state f) <> KOffline ->
+  wp (match poll_dispatch (kind_of (f_state f)) with
+      | TgUnreachable => Panic SiteUnreachable
+      | TgTodo => Panic SiteUnreachable
+      | TgDo DoListenToken => do_listen_token A f now w
+      | TgDo DoClaimToken => do_claim_token A f now w
+      | TgDo DoUseToken => do_use_token A ops f now w
+      | TgDo DoAwaitDataResponse => do_await_data_response A ops f now w
+      | TgDo DoPassToken => do_pass_token A f now w
+      | TgDo DoCheckTokenPass => do_check_token_pass A f now w
+      | TgDo DoActiveIdle => do_active_idle A f now w
+      | TgDo DoAwaitStatusResponse => do_await_status_response A f now w
+      end) PostRW.
+Proof.
+  intros R Tn Hw Wi Hc Hk. pose proof (rep_st _ _ R) as St.
+  destruct (kind_of (f_state f)) eqn:K; cbn [poll_dispatch].
+  - contradiction Hk. reflexivity.
+  - destruct (f_state f); try discriminate K. contradiction St.
+  - apply do_listen_token_wp; assumption.
+  - apply do_active_idle_wp; assumption.
+  - apply do_use_token_wp; assumption.
+  - apply do_claim_token_wp; assumption.
+  - apply do_await_data_response_wp; assumption.
+  - apply do_pass_token_wp; assumption.
+  - apply do_check_token_pass_wp; assumption.
+  - apply do_await_status_response_wp; assumption.
+Qed.
+
+Lemma poll_inner_wp f now busy (w : W) : Rep n f -> time_ok now -> w_tx w = None -> Winv w ->
+  wp (poll_inner ops f now busy w) PostRW.
+Proof.
+  intros R Tn Hw Wi. unfold poll_inner.
+  pose proof (rep_conn _ _ R) as C. pose proof (rep_st _ _ R) as St.
+  eapply wp_bind with (P := fun x => let '(f1, w1, off) := x in
+     Rep n f1 /\ Winv w1 /\ (off = false -> w_tx w1 = None /\ f_conn f1 = ConnOnline /\ kind_of (f_state f1) <> KOffline)).
+  - destruct (f_conn f) eqn:Ec.
+    + destruct (f_state f); cbn in C; try (exfalso; congruence); try contradiction.
+      cbn. split; [exact R|]. split; [exact Wi|discriminate].
+    + exfalso. destruct (f_state f); cbn in C; try congruence; try contradiction.
+    + destruct (online_entry_kind (kind_of (f_state f))) eqn:Eo.
+      * destruct (f_state f) eqn:Hs; try discriminate Eo; [|contradiction St].
+        rewrite (trans_ok f _ _ (ListenToken None 0)) by (rewrite Hs; reflexivity).
+        cbn. split; [apply Rep_set_st; [exact R|exact Ec|cbn; lia]|]. split; [apply Winv_note, Wi|].
+        intros _. split; [exact Hw|]. split; [exact Ec|discriminate].
+      * cbn. split; [exact R|]. split; [exact Wi|]. intros _. split; [exact Hw|]. split; [exact Ec|].
+        intros K. rewrite K in Eo. discriminate Eo.
+  - intros [[f1 w1] off] (R1 & W1 & Ho). destruct off; [cbn; split; assumption|].
+    destruct (Ho eq_refl) as (Hw1 & Hc1 & Hk1). clear Ho.
+    unfold check_for_ongoing_transmision.
+    destruct (mark_bus_activity_rep n f1 now R1 Tn) as (Rm & Sm).
+    match goal with |- context [if ?c then _ else _] => destruct c end.
+    + cbn. split; [exact Rm|]. destruct busy; apply Winv_note, W1.
+    + unfold check_for_bus_activity.
+      destruct (Nat.ltb (f_pending f1) (length (w_rx w1))).
+      * apply dispatch_wp.
+        -- apply Rep_set_pending, Rm.
+        -- exact Tn.
+        -- exact Hw1.
+        -- apply Winv_note, W1.
+        -- cbn [f_conn set_pending]. rewrite (sb_conn _ _ Sm). exact Hc1.
+        -- cbn [f_state set_pending]. rewrite (sb_state _ _ Sm). exact Hk1.
+      * apply dispatch_wp; assumption.
+Qed.
+
 End WithApps.
+
+(* ------------------------------------------------------------------------------------------ *)
+(* poll, the API calls, histories                                                               *)
+
+Section Poll.
+Variable A : Type.
+Variable ops : app_ops A.
+Hypothesis Happs : apps_total A ops.
+
+(* C05_rep_step.  The model's loops carry their own bounds: the receive loop runs with fuel
+   `receive_all_fuel rx = S (length rx)`, the application loop is a structural recursion over
+   `length apps`; "Ok" below therefore means: no panic and neither bound is exhausted. *)
+Theorem poll_rep_step (f : fdl) (now : Z) (pin : phy_in) (apps : list A) :
+  Rep (length apps) f -> time_ok now -> all_bytes (rx pin) ->
+  exists f' o apps' c, poll ops f now pin apps = Ok (f', o, apps', c) /\
+                       Rep (length apps) f' /\ length apps' = length apps.
+Proof.
+  intros R Tn Hb. unfold poll, poll_traced.
+  pose proof (poll_inner_wp A ops (length apps) Happs f now (tx_busy pin) (mkWorld (rx pin) None apps [] []) R Tn eq_refl) as H.
+  destruct (wp_ok _ _ (H (conj Hb eq_refl))) as ([f' w'] & E & (R' & (_ & Wa))).
+  rewrite E. cbn [bind]. eexists. eexists. eexists. eexists. split; [reflexivity|]. split; assumption.
+Qed.
+
+Lemma fuel_is_rx_plus_one (rxb : bytes) : receive_all_fuel rxb = S (length rxb).
+Proof. reflexivity. Qed.
+
+Lemma Rep_set_online k f : Rep k f -> exists f', set_online f = Ok f' /\ Rep k f'.
+Proof.
+  intros R. exists (set_conn f ConnOnline). split; [reflexivity|].
+  destruct R as [Rp Rr Rc Rg Rs Rl Rt Rn]. constructor; cbn; try assumption.
+  destruct (f_state f); cbn in *; try reflexivity; try discriminate; assumption.
+Qed.
+
+Lemma Rep_set_offline k f : Rep k f -> exists f', set_offline f = Ok f' /\ Rep k f'.
+Proof.
+  intros R. unfold set_offline, set_state.
+  destruct (fdl_new_rep k (f_p f) (rep_p _ _ R)) as [f0 (E & R0 & _)]. exists f0. split; assumption.
+Qed.
+
+Lemma rep_api k f : Rep k f ->
+  (exists f1, set_online f = Ok f1 /\ Rep k f1) /\ (exists f2, set_offline f = Ok f2 /\ Rep k f2).
+Proof. intros R. split; [exact (Rep_set_online k f R)|exact (Rep_set_offline k f R)]. Qed.
+
+(* C05_rep_init *)
+Theorem rep_init k p : builder_valid p ->
+  exists f0, fdl_new p = Ok f0 /\ Rep k f0 /\
+    (exists f1, set_online f0 = Ok f1 /\ Rep k f1) /\ (exists f2, set_offline f0 = Ok f2 /\ Rep k f2).
+Proof.
+  intros B. destruct (fdl_new_rep k p B) as [f0 (E & R0 & _)]. exists f0. split; [exact E|]. split; [exact R0|].
+  split; [apply Rep_set_online, R0|apply Rep_set_offline, R0].
+Qed.
+
+(* histories: polls (any time in range, any PHY answer, any received bytes) interleaved with the
+   implemented connectivity calls *)
+Inductive api_ev : Type :=
+| EvPoll (now : Z) (pin : phy_in)
+| EvOnline
+| EvOffline.
+
+Definition ev_ok (e : api_ev) : Prop :=
+  match e with EvPoll now pin => time_ok now /\ all_bytes (rx pin) | _ => True end.
+
+Fixpoint run_events (f : fdl) (apps : list A) (evs : list api_ev) : res (fdl * list A) :=
+  match evs with
+  | [] => Ok (f, apps)
+  | EvPoll now pin :: t =>
+      let* (f', _, apps', _) := poll ops f now pin apps in run_events f' apps' t
+  | EvOnline :: t => let* f' := set_online f in run_events f' apps t
+  | EvOffline :: t => let* f' := set_offline f in run_events f' apps t
+  end.
+
+Lemma run_events_rep evs : forall f apps, Rep (length apps) f -> Forall ev_ok evs ->
+  exists f' apps', run_events f apps evs = Ok (f', apps') /\ Rep (length apps) f' /\ length apps' = length apps.
+Proof.
+  induction evs as [|e t IH]; intros f apps R F.
+  - exists f, apps. cbn. tauto.
+  - inversion F as [|? ? He Ft]; subst. destruct e as [now pin| |]; cbn [run_events].
+    + destruct He as (Tn & Hb).
+      destruct (poll_rep_step f now pin apps R Tn Hb) as (f' & o & apps' & c & E & R' & L).
+      rewrite E. cbn [bind]. rewrite <- L in R'.
+      destruct (IH f' apps' R' Ft) as (f2 & apps2 & E2 & R2 & L2).
+      exists f2, apps2. split; [exact E2|]. rewrite <- L. split; [exact R2|exact L2].
+    + destruct (Rep_set_online _ f R) as (f' & E & R'). rewrite E. cbn [bind]. apply IH; assumption.
+    + destruct (Rep_set_offline _ f R) as (f' & E & R'). rewrite E. cbn [bind]. apply IH; assumption.
+Qed.
+
+(* C05_no_panic *)
+Theorem no_panic p (apps : list A) (evs : list api_ev) : builder_valid p -> Forall ev_ok evs ->
+  exists f0 f' apps', fdl_new p = Ok f0 /\ run_events f0 apps evs = Ok (f', apps') /\ Rep (length apps) f'.
+Proof.
+  intros B F. destruct (fdl_new_rep (length apps) p B) as [f0 (E & R0 & _)].
+  destruct (run_events_rep evs f0 apps R0 F) as (f' & apps' & E' & R' & _).
+  exists f0, f', apps'. tauto.
+Qed.
+
+End Poll.
+
+(* non-vacuity: the unit application `impl FdlApplication for ()` is total *)
+Lemma unit_apps_total : apps_total unit unit_app_ops.
+Proof.
+  split; [|split].
+  - intros a now p hp. exists a, None. split; [reflexivity|exact I].
+  - intros a now p addr t. exists a. reflexivity.
+  - intros a now p addr. exists a. reflexivity.
+Qed.
